@@ -78,6 +78,17 @@ def run(ctx):
                 hist["file_disamb"] += extra_len == 1
                 hist["file_rank_disamb"] += extra_len == 2
     n1, v1 = diff_games(ctx, "g_san", games, "SAN text / parse-back differs from the model", impl, model, tally=tally)
+    # make / unmake / null-move scripts on ONE Position object, the observer called after EVERY step (caches and lazily updated members
+    # must follow the object through every kind of step): compared with the model's value for the position represented
+    wroots = [g_[0] for g_ in games][: (24 if q else 800)]
+    wl = ["walkgen %d %d %d %s" % (ctx.rng.randrange(1 << 30), 24 if q else 60, ctx.rng.choice([3, 6]), f_) for f_ in wroots]
+    rcw, wscripts, ew = run_lines(model, wl, shards=NPROC)
+    wgames = [(f_, (s_ or "").split()) for f_, s_ in zip(wroots, wscripts) if s_]
+    nw, vw = diff_games(ctx, "walk_san", wgames, "SAN text / parse-back after a make / unmake / null-move script on one object differs from the model", impl, model)
+    nw2, vw2 = diff_games(ctx, "walk_san_do", wgames, "the same, observed only after made moves (not after unmake: the way a search asks)", impl, model)
+    vw += vw2
+    ctx.notes["walk_script_observations"] = nw + nw2
+    v1 += vw
     # the property on the implementation's own output: every flag is 1
     cases = ["g_san %s | %s" % (f, " ".join(ms)) for f, ms in games]
     rc1, o1, e1 = run_lines(impl, cases, shards=NPROC)
